@@ -457,9 +457,19 @@ def _subparam_order(prog: Program, run: Run) -> None:
         x.func, ast.Attribute) and x.func.attr in ("iterfind", "findall", "iter") and x.args and
         any(t in TAGS for t in tag_values(x.args[0]))]
     # (nested predicate functions / lambdas of the parser included)
-    tag_tests = [x for x in ast.walk(f.node) if isinstance(x, ast.Compare) and isinstance(
-        x.left, ast.Attribute) and x.left.attr == "tag" and all(
-            k in ast.unparse(x) for k in ("'COMPARAM'", "'COMPLEX-COMPARAM'"))]
+    # ... and predicate functions of the package that the parser passes on by name
+    scopes, todo, seen = [f.node], [f.node], set()
+    while todo:
+        for x in ast.walk(todo.pop()):
+            if isinstance(x, ast.Name) and x.id not in seen:
+                seen.add(x.id)
+                g = prog.module_func(f.module, x.id)
+                if g is not None and g.cls is None:
+                    scopes.append(g.node)
+                    todo.append(g.node)
+    tag_tests = [x for sc in scopes for x in ast.walk(sc) if isinstance(x, ast.Compare) and
+                 isinstance(x.left, ast.Attribute) and x.left.attr == "tag" and all(
+                     k in ast.unparse(x) for k in ("'COMPARAM'", "'COMPLEX-COMPARAM'"))]
     if per_tag:
         run.violation(R, C, "subparams-per-tag",
                       f"`{ast.unparse(per_tag[0])}` collects the sub-parameters tag by tag: a "
